@@ -18,6 +18,8 @@ IDENT = "prqlc/prqlc-parser/src/parser/pr/ident.rs"
 STMT = "prqlc/prqlc-parser/src/parser/stmt.rs"
 PMOD = "prqlc/prqlc-parser/src/parser/mod.rs"
 LIB = "prqlc/prqlc/src/lib.rs"
+CTY = "prqlc/prqlc/src/codegen/types.rs"
+PTY = "prqlc/prqlc-parser/src/parser/types.rs"
 
 
 def codes(s):
@@ -371,6 +373,12 @@ def extract():
         "Stmts::write": (AST, r"impl\s+WriteSource\s+for\s+Vec<pr::Stmt>\s*"),
         # the entry point: fmt_prog is Vec<Stmt>::write at WriteOpt::default(), nothing applied afterwards (seed C14/5)
         "pl_to_prql": (LIB, r"pub\s+fn\s+pl_to_prql\s*\("),
+        # type expressions (Model/FmtTy.v)
+        "Ty::write": (CTY, r"impl\s+WriteSource\s+for\s+pr::Ty\s*"),
+        "TyKind::write": (CTY, r"impl\s+WriteSource\s+for\s+pr::TyKind\s*"),
+        "TyTupleField::write": (CTY, r"impl\s+WriteSource\s+for\s+pr::TyTupleField\s*"),
+        "parser::type_expr": (PTY, r"pub\(crate\)\s+fn\s+type_expr\s*<"),
+        "parser::type_def": (STMT, r"fn\s+type_def\s*<"),
     }
     got = {}
     for name, (rel, pat) in pins.items():
@@ -436,6 +444,11 @@ PINNED = {
     "Stmt::write": "a9bd15b8ac448f64",
     "Stmts::write": "7a037f3d9fa22f69",
     "pl_to_prql": "e9c07143ffe47145",
+    "Ty::write": "c6f1432756e3cfd9",
+    "TyKind::write": "e3452067c4af7f10",
+    "TyTupleField::write": "3d2a40bd363ba4d4",
+    "parser::type_expr": "8c2fdf8864522035",
+    "parser::type_def": "a2dbf99e8306a7b3",
 }
 
 
